@@ -8,13 +8,14 @@ from ..engine import Outcome
 
 ID = "C10"
 LEVEL = "exploration"
-RULE = ("argument vectors of five classes run against a fixed 15-entry tree inside a chroot jail: (i) token soups "
+RULE = ("argument vectors of six classes run against a fixed 15-entry tree inside a chroot jail: (i) token soups "
         "over the language alphabet, (ii) token-level mutations of generated valid queries, (iii) every function x "
-        "arity 0..4 x ill-typed arguments, (iv) ill-typed literals (bad regex/date/boolean), (v) malformed by "
+        "arity 0..4 x ill-typed arguments (every function x every single argument and argument pair enumerated), (iv) ill-typed literals (bad regex/date/boolean), (v) malformed by "
         "construction (unbalanced bracket, dangling/unknown operator, bad ORDER BY position, bad LIMIT, unknown "
-        "format, no column). Oracle: terminates within 10 CPU-seconds, status in {0,1,2}, no `panicked at`, classes "
+        "format, no column), (vi) FROM clauses with plain, pattern and malformed-pattern roots x root options "
+        "(regexp, depth options with good and bad numbers, near-miss option words). Oracle: terminates within 10 CPU-seconds, status in {0,1,2}, no `panicked at`, classes "
         "iv/v give status 2 with a diagnostic, `query:` rejection prints no row. Non-trivial = fselect rejected the "
-        "argv (status 1/2) or the case belongs to class iii/iv/v; distinct by argv.")
+        "argv (status 1/2) or the case belongs to class iii/iv/v/vi; distinct by argv.")
 ASSUMPTIONS = [
     "runs happen in a chroot jail (binary + its shared libraries + the fixed tree), so `/`, `..`, `~` stay bounded",
     "a hang is a run that consumes 10 CPU-seconds on a 15-entry tree (SIGXCPU); wall-clock timeouts are inconclusive",
@@ -86,7 +87,7 @@ TOKEN_CLASSES = [lang.KEYWORDS, lang.ALL_OPS + ODD_OPS, [w for g in lang.ARITH_A
 
 FUNC_ARGS = ["ext", "name", "size", "modified", "'abc'", "5", "-3", "2.5", "99999999999999999999",
              "'2020-02-30'", "is_dir", "0", "x", "'a b'", "-1", "'%.1 k'", "path", "1e400", "'-'", "2020-05-05",
-             "1", "3", "'zz'", "mode", "'%.99999999999'", "'%.2 q'", "-9223372036854775808", "2147483648"]
+             "1", "3", "'zz'", "mode", "'%.99999999999'", "'%.65536'", "'%.70000 kb'", "'%.2 q'", "-9223372036854775808", "2147483648"]
 
 BAD_REGEX = ["'('", "'[a'", "'*'", "')'", "'a)'", "'(?P<n'", "'[z-a]'", "'a{2,1}'", "'\\'"]
 # always quoted: an unquoted `2020-13-01` is lexed as the arithmetic expression `2020-13` minus `01`
@@ -255,9 +256,38 @@ def malformed(draw):
     return {"cls": "v:" + kind, "argv": argv, "expect2": True}
 
 
+RX_ROOTS = ["'./[a'", "'su[b'", "'(sub'", "'s*'", "'s?b'", "'su[bp]'", "'[z-a]'", "'*'", "'?'", "'sub/[d'", "'sub/d*'", "'/t/s[u'",
+            "'a{2,1}*'", "'s**'", "'[[:foo:]]'", "'\\[x'", "'sub/*/[q'", "'(?P<n>s*'", "'su[b]'", "sub", ".", "'/t/*'", "'*)'"]
+ROOT_OPT_WORDS = [w for g in lang.ROOT_OPTION_ALIASES for w in g] + ["regex", "regexps", "archive", "symlink", "gitignored"]
+ROOT_OPT_NUMS = ["0", "1", "2", "x", "-1", "1.5", "4294967295", "4294967296", "99999999999999999999", "'1'", "1k", ""]
+
+
+@st.composite
+def root_options(draw):
+    """FROM clauses: roots (plain, glob/regexp-looking, malformed patterns) each followed by 0..4 root options,
+    depth options with good and bad numbers; regexp roots only take effect after another option."""
+    parts = []
+    for _ in range(draw(st.sampled_from([1, 1, 1, 2, 3]))):
+        r = draw(st.sampled_from(RX_ROOTS))
+        opts = []
+        for _ in range(draw(st.sampled_from([0, 1, 2, 2, 3, 4]))):
+            w = draw(st.sampled_from(ROOT_OPT_WORDS))
+            opts.append(w)
+            if w in ("depth", "maxdepth", "mindepth"):
+                n = draw(st.sampled_from(ROOT_OPT_NUMS))
+                if n:
+                    opts.append(n)
+        parts.append(" ".join([r] + opts))
+    q = draw(st.sampled_from(["name", "select name, size", "count(*)", "path"])) + " from " + ", ".join(parts)
+    q += draw(st.sampled_from(["", "", " where size >= 0", " order by name", " limit 2", " into json"]))
+    if draw(st.sampled_from(range(4))) == 0:
+        return {"cls": "vi", "argv": q.replace("'", "").split(), "expect2": False}
+    return {"cls": "vi", "argv": [q], "expect2": False}
+
+
 def strategy(tier):
     gens = [soup(), soup(), mutated(), mutated(), mutated(), function_calls(), function_calls(),
-            ill_typed(), malformed(), malformed()]
+            ill_typed(), malformed(), malformed(), root_options()]
     return st.sampled_from(range(len(gens))).flatmap(lambda i: gens[i])
 
 
@@ -266,8 +296,23 @@ EXHAUSTIVE_NOTE = ("class iv (every bad regex / date / boolean literal x column 
                    "column-less queries) are enumerated completely in addition to the generated search")
 
 
+FIRST_ARGS = ["name", "size", "modified", "5", "'abc'"]
+
+
 def enumerate_cases(tier):
     cases = []
+    # class iii, closed part: every function word x (no argument, every single argument, every pair whose first
+    # argument is a typical one) - the generated search draws longer and stranger argument lists on top
+    for f in lang.ALL_FUNCTION_WORDS:
+        cases.append({"cls": "iii", "argv": ["select %s() from . into list" % f], "expect2": False})
+        for a in FUNC_ARGS:
+            cases.append({"cls": "iii", "argv": ["select %s(%s) from . into list" % (f, a)], "expect2": False})
+            for b in (FUNC_ARGS if tier != "quick" else FIRST_ARGS):
+                cases.append({"cls": "iii", "argv": ["select %s(%s, %s) from . into list" % (f, b, a)], "expect2": False})
+    # class vi, closed part: every pattern root x (regexp after a depth option | regexp directly | no option)
+    for r in RX_ROOTS:
+        for tail in (" depth 1 rx", " depth 1 regexp", " rx", " mindepth 1 regexp dfs", ""):
+            cases.append({"cls": "vi", "argv": ["name from %s%s" % (r, tail)], "expect2": False})
     for col in ["name", "path", "ext", "dir", "mode", "lower(name)"]:
         for op in ["=~", "~=", "regexp", "rx", "!=~", "!~="]:
             for lit in BAD_REGEX:
@@ -341,7 +386,7 @@ def check(case):
     out.evals = 1
     judge(out, case, res)
     base = case["cls"].split(":")[0]
-    out.nontrivial = base in ("iii", "iv", "v") or res.status in (1, 2)
+    out.nontrivial = base in ("iii", "iv", "v", "vi") or res.status in (1, 2)
     out.classes = ["class=" + case["cls"], "status=%s" % (res.status if res.sig is None else "sig%d" % res.sig),
                    "args=%s" % ("1" if len(case["argv"]) == 1 else "many")]
     out.sample = {"cls": case["cls"], "argv": case["argv"], "status": res.status,
@@ -378,6 +423,9 @@ PINNED = [
     ("no-column", _c("v:no-column", ["from ."], True)),
     ("limit-x", _c("v:limit", ["name from . limit x"], True)),
     ("into-xml", _c("v:format", ["name from . into xml"], True)),
+    ("format-precision-overflow", _c("iii", ["select format_size(size, '%.99999999999') from . into list"], False)),
+    ("format-precision-65536", _c("iii", ["select format_size(size, '%.65536') from ."], False)),
+    ("regexp-root-malformed", _c("vi", ["name from './[a' depth 1 rx"], False)),
 ]
 
 
